@@ -59,7 +59,7 @@ func otherFS(work string) string {
 	return ""
 }
 
-func runC01XFS(c *Ctx) {
+func runC01XFS(c *Ctx, prop string) {
 	n := c.N(120, 3000)
 	other := ""
 	for i := 0; i < n; i++ {
@@ -79,18 +79,18 @@ func runC01XFS(c *Ctx) {
 		dir := filepath.Join(c.Work, fmt.Sprintf("c01x-%d", idx))
 		fin := filepath.Join(other, fmt.Sprintf("f-%d", idx))
 		c.Guard(idx, sc, func() {
-			bubble(c.T, func() { c01XFSRun(c, idx, rng, sc, dir, fin) })
+			bubble(c.T, func() { c01XFSRun(c, prop, idx, rng, sc, dir, fin) })
 		})
 		os.RemoveAll(dir)
 		os.RemoveAll(fin)
 	}
 }
 
-func c01XFSRun(c *Ctx, idx int, rng *rand.Rand, sc *c01xScenario, dir, fin string) {
+func c01XFSRun(c *Ctx, prop string, idx int, rng *rand.Rand, sc *c01xScenario, dir, fin string) {
 	res := c.Res
 	res.Eval()
 	viol := func(clause, fp, detail string) {
-		res.Violate(Violation{Clause: clause, Fingerprint: "C01/" + fp, Detail: detail, Scenario: sc, Index: idx})
+		res.Violate(Violation{Clause: clause, Fingerprint: prop + "/" + fp, Detail: detail, Scenario: sc, Index: idx})
 	}
 	stageDir := filepath.Join(dir, "stage", "src")
 	logDir := filepath.Join(dir, "logs", "src")
@@ -181,6 +181,26 @@ func c01XFSRun(c *Ctx, idx int, rng *rand.Rand, sc *c01xScenario, dir, fin strin
 		want, ok := datas[ev.Rel]
 		if !ok || ev.MD5 != md5hex(want) {
 			viol("delivered-bytes-identical", "xfs-dispatched-wrong-bytes", fmt.Sprintf("the Dispatcher was handed %s with md5 %s (%d bytes); the file sent has md5 %s (%d bytes)", ev.Rel, ev.MD5, ev.Size, md5hex(want), len(want)))
+		}
+	}
+	// a positive poll answer means: a validated copy is durably held (C02)
+	for _, xf := range sc.Files {
+		code := st.GetFileStatus(xf.Name, ftime)
+		res.Count(fmt.Sprintf("xfs_poll_answer_%d", code), 1)
+		if code != sts.ConfirmPassed && code != sts.ConfirmWaiting {
+			continue
+		}
+		want := md5hex(datas[xf.Name])
+		held := false
+		for _, p := range []string{filepath.Join(finalDir, xf.Name), filepath.Join(stageDir, xf.Name+".wait")} {
+			if fi, err := os.Lstat(p); err == nil && fi.Mode().IsRegular() {
+				if b, err := os.ReadFile(p); err == nil && md5hex(b) == want {
+					held = true
+				}
+			}
+		}
+		if !held {
+			viol("positive-answer-needs-validated-copy", "xfs-positive-answer-without-copy", fmt.Sprintf("the poll for %s answers %d, but neither the final directory nor the staging area holds a copy with its hash (copy fault injected: %v)", xf.Name, code, xf.Fault))
 		}
 	}
 	for _, xf := range sc.Files {
